@@ -276,7 +276,8 @@ func guardPathNodeSlice(con *[]PathNode, l int) {
 
 // scanChildren scans all children of self and store them in self.Next
 // messageLen is only used when self.Node.t == proto.MESSAGE
-func (self *PathNode) scanChildren(p *binary.BinaryProtocol, recurse bool, opts *Options, desc *proto.TypeDescriptor, messageLen int) (err error) {
+// depth is the number of messages self is nested in
+func (self *PathNode) scanChildren(p *binary.BinaryProtocol, recurse bool, opts *Options, desc *proto.TypeDescriptor, messageLen int, depth int) (err error) {
 	next := self.Next[:0] // []PathNode len=0
 	l := len(next)
 	c := cap(next)
@@ -284,6 +285,11 @@ func (self *PathNode) scanChildren(p *binary.BinaryProtocol, recurse bool, opts 
 	var v *PathNode
 	switch self.Node.t {
 	case proto.MESSAGE:
+		// one level of recursion per nested message: unlimited nesting overflows the stack
+		if depth >= binary.MaxDepth {
+			return wrapError(meta.ErrStackOverflow, "PathNode.scanChildren: message nesting exceeds the depth limit.", nil)
+		}
+		depth++
 		messageDesc := desc.Message()
 		start := p.Read
 		if messageLen < 0 || start+messageLen > len(p.Buf) {
@@ -302,7 +308,7 @@ func (self *PathNode) scanChildren(p *binary.BinaryProtocol, recurse bool, opts 
 
 			field := messageDesc.ByNumber(fieldNumber)
 			if field != nil {
-				v, err = self.handleChild(&next, &l, &c, p, recurse, field.Type(), tagLen, opts)
+				v, err = self.handleChild(&next, &l, &c, p, recurse, field.Type(), tagLen, opts, depth)
 			} else {
 				// store unknown field without recurse subnodes, containing the whole [TLV] of unknown field
 				v, err = self.handleUnknownChild(&next, &l, &c, p, recurse, opts, fieldNumber, wireType, tagLen)
@@ -345,7 +351,7 @@ func (self *PathNode) scanChildren(p *binary.BinaryProtocol, recurse bool, opts 
 			start = p.Read
 			for p.Read < start+listLen {
 				// listLen is not used when node is LIST
-				v, err = self.handleChild(&next, &l, &c, p, recurse, desc.Elem(), listLen, opts)
+				v, err = self.handleChild(&next, &l, &c, p, recurse, desc.Elem(), listLen, opts, depth)
 				if err != nil {
 					return err
 				}
@@ -365,7 +371,7 @@ func (self *PathNode) scanChildren(p *binary.BinaryProtocol, recurse bool, opts 
 				}
 				p.Read += tagLen
 				// tagLen is not used when node is MAP
-				v, err = self.handleChild(&next, &l, &c, p, recurse, desc.Elem(), tagLen, opts)
+				v, err = self.handleChild(&next, &l, &c, p, recurse, desc.Elem(), tagLen, opts, depth)
 				if err != nil {
 					return err
 				}
@@ -423,7 +429,7 @@ func (self *PathNode) scanChildren(p *binary.BinaryProtocol, recurse bool, opts 
 				return wrapError(meta.ErrRead, "PathNode.scanChildren: Consume map value tag failed", nil)
 			}
 
-			v, err = self.handleChild(&next, &l, &c, p, recurse, valueDesc, valueLen, opts)
+			v, err = self.handleChild(&next, &l, &c, p, recurse, valueDesc, valueLen, opts, depth)
 			if err != nil {
 				return err
 			}
@@ -445,7 +451,7 @@ func (self *PathNode) scanChildren(p *binary.BinaryProtocol, recurse bool, opts 
 	return nil
 }
 
-func (self *PathNode) handleChild(in *[]PathNode, lp *int, cp *int, p *binary.BinaryProtocol, recurse bool, desc *proto.TypeDescriptor, tagL int, opts *Options) (*PathNode, error) {
+func (self *PathNode) handleChild(in *[]PathNode, lp *int, cp *int, p *binary.BinaryProtocol, recurse bool, desc *proto.TypeDescriptor, tagL int, opts *Options, depth int) (*PathNode, error) {
 	var con = *in
 	var l = *lp
 	guardPathNodeSlice(&con, l) // extend cap of con
@@ -528,7 +534,7 @@ func (self *PathNode) handleChild(in *[]PathNode, lp *int, cp *int, p *binary.Bi
 				}
 			}
 
-			if err := v.scanChildren(p, recurse, opts, parentDesc, messageLen); err != nil {
+			if err := v.scanChildren(p, recurse, opts, parentDesc, messageLen, depth); err != nil {
 				return nil, err
 			}
 			p.Buf = buf
@@ -608,7 +614,7 @@ func (self *PathNode) Load(recurse bool, opts *Options, desc *proto.TypeDescript
 	// if !ok {
 	// 	return wrapError(meta.ErrInvalidParam, "invalid descriptor", nil)
 	// }
-	return self.scanChildren(&p, recurse, opts, desc, len(p.Buf))
+	return self.scanChildren(&p, recurse, opts, desc, len(p.Buf), 0)
 }
 
 func getDescByPath(root *proto.TypeDescriptor, pathes ...Path) (*proto.TypeDescriptor, error) {
